@@ -23,7 +23,7 @@ EP_ID = {
     "Base.tell": 36, "ES.tell": 37, "GAE.tell": 38, "GAE.tell_dqd": 39, "GOE.tell_dqd": 40,
     "Scheduler.tell": 41, "Scheduler.tell_dqd": 42, "Bandit.tell": 43,
     "Adam.ctor": 44, "Adam.reset": 45, "Adam.step": 46, "GradAscent.ctor": 47, "GradAscent.reset": 48, "GradAscent.step": 49,
-    "viz.parallel_axes_plot": 50, "viz.heatmap_df": 51,
+    "viz.parallel_axes_plot": 50, "viz.heatmap_df": 51, "Emitter.ask": 52,
 }
 
 
@@ -72,13 +72,21 @@ def prefill(archive, cfg):
     """brings the archive into the requested state with arrays that are not the case's arguments"""
     rng = random.Random(cfg.get("pseed", 0))
     dt = np.dtype(cfg["dtype"])
-    n = {"empty": 0, "some": 3, "dense": 9}[cfg.get("state", "some")]
+    centres = None
+    if cfg.get("state") == "full" and cfg["kind"] in ("grid", "cvt"):
+        # every cell occupied, filled in index order (occupied_list == arange(cells)): the state in which "all of the store"
+        # and "the internal arrays" coincide
+        centres = ([[(i + 0.5) / 4, (j + 0.5) / 3] for i in range(4) for j in range(3)] if cfg["kind"] == "grid"
+                   else [[0.1, 0.1], [0.5, 0.1], [0.9, 0.1], [0.1, 0.9], [0.5, 0.9], [0.9, 0.9]])
+    n = {"empty": 0, "some": 3, "dense": 9, "full": len(centres) if centres else 9}[cfg.get("state", "some")]
     done = 0
     with warnings.catch_warnings():
         warnings.simplefilter("ignore")
         for k in range(n):
             b = batch_values(rng, 1, dt, cfg.get("extras"))
             b["objective"] = b["objective"] + k  # rising objectives: improvements happen
+            if centres:
+                b["measures"] = np.array([centres[k]], dtype=dt)
             archive.add(**{f: np.array(v) for f, v in b.items()})
             done += 1
     return done
@@ -131,9 +139,11 @@ def make_store(cfg):
     dt = np.dtype(cfg["dtype"])
     store = ArrayStore({"objective": ((), dt), "measures": ((MEAS,), dt), "solution": ((SOL,), dt)}, cfg.get("cap", 6))
     rng = random.Random(cfg.get("pseed", 0))
-    n = {"empty": 0, "some": 2, "dense": 5}[cfg.get("state", "some")]
+    n = {"empty": 0, "some": 2, "dense": 5, "full": store.capacity}[cfg.get("state", "some")]
     if n:
         idx = np.array([rng.randrange(store.capacity) for _ in range(n)], dtype=np.int32)
+        if cfg.get("state") == "full":
+            idx = np.arange(store.capacity, dtype=np.int32)  # every cell occupied, occupied_list == arange(capacity)
         b = batch_values(rng, n, dt, 0)
         store.add(idx, {k: b[k] for k in ("objective", "measures", "solution")}, {}, [])
     return store
@@ -310,7 +320,7 @@ def ep_archive_retrieve(case, single=False):
     cfg, archive = _filled(case)
     rng = random.Random(case["vseed"])
     dt = np.dtype(cfg["dtype"])
-    meas = grid8(rng, (MEAS,) if single else (cfg.get("n", 3), MEAS), 0, 1).astype(dt)
+    meas = grid8(rng, (MEAS,) if single else (cfg.get("n", 3), MEAS), -0.5, 1.5).astype(dt)
     if not archive.empty and not single:
         meas[0] = archive.data("measures")[0]
     if not archive.empty and single and cfg.get("hit", 1):
@@ -362,7 +372,8 @@ def ep_archive_index_of(case, single=False):
     cfg, archive = _filled(case)
     rng = random.Random(case["vseed"])
     dt = np.dtype(cfg["dtype"])
-    meas = grid8(rng, (MEAS,) if single else (cfg.get("n", 3), MEAS), 0, 1).astype(dt)
+    # also outside the archive's bounds, so that an implementation that clips / normalises its argument in place is seen
+    meas = grid8(rng, (MEAS,) if single else (cfg.get("n", 3), MEAS), -0.5, 1.5).astype(dt)
     args = mkargs(case, [("measures", meas)])
     f = archive.index_of_single if single else archive.index_of
     v = INDEX_KIND[cfg["kind"]] + (1 if cfg["kind"] == "cvt" and not cfg.get("kd", 1) else 0)
@@ -631,6 +642,69 @@ def ep_emitter_tell_dqd(case):
                lambda: emitter_digest(emitter, archive, cfg), variant=1 if cfg.get("normalize", 1) else 0)
 
 
+
+def ep_emitter_ask(case):
+    """emitter.ask() / ask_dqd(): no array arguments; what matters is what is handed out.  The follow-up (digest) evaluates the
+    solutions that were handed out (copied at call time), tells them back and keeps asking, so that an internal buffer that was
+    handed out gets updated by the emitter while the caller still holds it."""
+    cfg = case["cfg"]
+    em, which = cfg["emitter"], cfg.get("which", "ask")
+    dt = np.dtype(cfg["dtype"])
+    archive = _emitter_archive(cfg)
+    rng = random.Random(case["vseed"])
+    over = {}
+    if cfg.get("init") and em in ("gaussian", "isoline", "ga") and which == "ask":
+        over = {"initial_solutions": grid8(rng, (2, SOL), -1, 1).astype(dt), "x0": None}
+    emitter = make_emitter(em, archive, cfg, **over)
+    ev = (lambda n: {"ev": np.zeros((n, 2), dtype=dt)}) if cfg.get("extras") else (lambda n: {})
+    ones = lambda n: np.ones((n, MEAS + 1, SOL), dtype=dt)  # noqa
+
+    def dqd_round(s0):
+        if len(s0):
+            obj, meas = det_eval(s0, dt)
+            info = archive.add(s0.astype(dt), obj, meas, **ev(len(s0)))
+            emitter.tell_dqd(s0.astype(dt), obj, meas, ones(len(s0)), info, **ev(len(s0)))
+
+    with warnings.catch_warnings():
+        warnings.simplefilter("ignore")
+        if which == "ask" and em in ("gae", "goe"):
+            dqd_round(np.array(emitter.ask_dqd()))
+    held = {}
+
+    def call():
+        with warnings.catch_warnings():
+            warnings.simplefilter("ignore")
+            r = emitter.ask_dqd() if which == "ask_dqd" else emitter.ask()
+        held["sols"] = np.array(r)  # the values handed out, copied before anybody writes into r
+        return r
+
+    def digest():
+        stored = [guarded(lambda: archive.data())]  # stored contents right now
+        out = []
+        s0 = held.get("sols")
+        with warnings.catch_warnings():
+            warnings.simplefilter("ignore")
+            if s0 is not None and len(s0):
+                if which == "ask_dqd":
+                    out.append(("tell_dqd", guarded(lambda: dqd_round(s0))))
+                    out.append(("ask", guarded(emitter.ask)))
+                else:
+                    obj, meas = det_eval(s0, dt)
+
+                    def step():
+                        info = archive.add(s0.astype(dt), obj, meas, **ev(len(s0)))
+                        emitter.tell(s0.astype(dt), obj, meas, info, **ev(len(s0)))
+                    out.append(("tell", guarded(step)))
+        d = emitter_digest(emitter, archive, cfg)
+        # everything after the first read goes through the emitter's own state: reported separately from the stored contents
+        return {"stored": stored, "extra": out + d["stored"] + d["extra"]}
+    if which == "ask_dqd":
+        variant = {"goe": 2, "gae": 3}.get(em, 0)
+    else:
+        variant = 1 if em in ("es", "gae") else 0
+    return Ctx("Emitter.ask", {"emitter": emitter, "archive": archive}, [], call, digest, variant=variant)
+
+
 # ---------------------------------------------------------------------------------------------
 # schedulers
 def scheduler_digest(sched, cfg, dqd):
@@ -813,7 +887,7 @@ BUILDERS = {
     "Archive.index_of_single": lambda c: ep_archive_index_of(c, True),
     "CVT.ctor_centroids": lambda c: ep_cvt_ctor(c, "centroids"), "CVT.ctor_samples": lambda c: ep_cvt_ctor(c, "samples"),
     "Grid.ctor": ep_grid_ctor, "Archive.cqd_score": ep_cqd, "Proximity.compute_novelty": ep_novelty,
-    "Emitter.ctor": ep_emitter_ctor, "Emitter.tell": ep_emitter_tell, "Emitter.tell_dqd": ep_emitter_tell_dqd,
+    "Emitter.ask": ep_emitter_ask, "Emitter.ctor": ep_emitter_ctor, "Emitter.tell": ep_emitter_tell, "Emitter.tell_dqd": ep_emitter_tell_dqd,
     "Scheduler.tell": ep_scheduler_tell, "Scheduler.tell_dqd": lambda c: ep_scheduler_tell(c, dqd=True),
     "Bandit.tell": lambda c: ep_scheduler_tell(c, bandit=True),
     "viz": lambda c: ep_viz(c, c["cfg"]["which"]),
